@@ -550,6 +550,9 @@ class Evaluator:
         return VBool(z3.And(terms) if len(terms) > 1 else terms[0])
 
     def compare(self, op, a, b, st, node):
+        if isinstance(op, ast.Eq) and isinstance(a, VElem) and a.kind == 'ndarray' and isinstance(b, VInt):
+            f = z3.Function('mask_eq', Elem, z3.IntSort(), Elem)
+            return ('val', VElem(f(a.t, b.t), kind='ndarray'))
         if isinstance(op, (ast.Eq, ast.NotEq)) and ((isinstance(a, VList) and a.nd) or (isinstance(b, VList) and b.nd)):
             # numpy: comparison with an ndarray is elementwise; the result is an array of the same length
             arr, other = (a, b) if isinstance(a, VList) and a.nd else (b, a)
@@ -647,6 +650,10 @@ class Evaluator:
         if isinstance(base, VRange) and not isinstance(sl, VSlice):
             i = as_int(sl)
             return VInt(base.start + i * base.step)
+        if isinstance(base, VObj):
+            m = self.resolve_method(base, '__getitem__', st)
+            if m is not None:
+                return self.call(m, [sl], {}, st, node)
         h = self.subscript_hook(base, sl, st, node)
         if h is not None:
             return h
@@ -659,7 +666,7 @@ class Evaluator:
             return self.map_rows(base, VStr('cols'), sl.items[1], st)
         return None
 
-    def map_rows(self, rows, op, arg, st):
+    def map_rows(self, rows, op, arg, st, width=None):
         cell = st.heap.lists[rows.ref]
         if cell.etype != 'elem':
             return None
@@ -669,7 +676,9 @@ class Evaluator:
         k = z3.Int(fresh_name('k'))
         ra = st.heap.lists[res.ref].leaves[0]
         st.assume(z3.ForAll([k], z3.Implies(z3.And(k >= 0, k < n), ra[k] == OPR(flatten('elem', op)[0], flatten('elem', arg)[0], cell.leaves[0][k]))))
-        return VList(res.ref, nd=True)
+        if isinstance(op, VStr) and op.s == 'cols' and isinstance(arg, VElem) and arg.kind == 'ndarray':
+            width = z3.Function('elem_len', Elem, z3.IntSort())(arg.t)       # rows[:, index_array] has len(index_array) columns
+        return VList(res.ref, nd=True, width=width if width is not None else rows.width)
 
     def ev_Attribute(self, node, st):
         base = self.ev(node.value, st)
@@ -692,6 +701,10 @@ class Evaluator:
             m = self.resolve_elem_attr(base, attr, st)
             if m is not None:
                 return m
+        if isinstance(base, VList) and base.nd and attr == 'shape' and base.width is not None:
+            return VTuple([VInt(st.heap.lists[base.ref].length), VInt(base.width)])
+        if isinstance(base, VList) and base.nd and attr == 'dtype':
+            return VElem(z3.Const('some_dtype', Elem))
         if isinstance(base, VBlocks) and attr == 'append':
             return VFunc('blocksmethod', attr, self_val=base)
         if isinstance(base, VList) and attr in ('append', 'extend'):
